@@ -65,6 +65,14 @@ Theorem gen_cvt_uint32_vec4_is_model : forall powf x y z w,
 Proof. exact gen_pack. Qed.
 Print Assumptions gen_cvt_uint32_vec4_is_model.
 
+(* linear_to_srgba(vec4f) has no guard on the components: each result channel is the scalar path on that
+   component alone (a fast path keyed on equal components changes this definition and breaks the obligation) *)
+Theorem gen_linear_to_srgba_is_model : forall powf x y z w,
+  linear_to_srgba__v4f (IF32 powf) (mk_vec4 (IF32 powf) x y z w)
+  = mk_vec4 (IF32 powf) (linear_to_srgb powf x) (linear_to_srgb powf y) (linear_to_srgb powf z) (maxR w 0).
+Proof. exact gen_linear_to_srgba. Qed.
+Print Assumptions gen_linear_to_srgba_is_model.
+
 Theorem gen_linear_to_srgba8_is_model : forall powf x y z w,
   linear_to_srgba8__v4f (IF32 powf) (mk_vec4 (IF32 powf) x y z w) = IZR (linear_to_srgba8 powf x y z w).
 Proof. exact gen_srgba8. Qed.
